@@ -204,6 +204,40 @@ pub struct Obs {
     pub trace: Vec<(u64, Ev)>,
     pub result: Option<Result<(), String>>,
     pub stopped: bool,
+    /// Global sequence numbers at which the whole system was quiescent (after initialisation and after every
+    /// `Settle` op: all requests delivered, system idle, all frames read): no lane event can be pending across such
+    /// a point.
+    pub quiescent_marks: Vec<u64>,
+}
+
+/// The last quiescent point at or before `t`.
+pub fn last_mark(marks: &[u64], t: u64) -> u64 {
+    marks.iter().copied().filter(|m| *m <= t).max().unwrap_or(0)
+}
+
+/// Key `k` was mutated (update / remove of `k`, or a clear) strictly inside (lo, hi).
+pub fn mutated_between(events: &[(u64, LaneEv)], k: &MKey, lo: u64, hi: u64) -> bool {
+    events.iter().any(|(q, e)| {
+        *q > lo
+            && *q < hi
+            && match e {
+                LaneEv::Upd(k2, _) | LaneEv::Rem(k2) => k2 == k,
+                LaneEv::Clr => true,
+            }
+    })
+}
+
+/// Key `k` was removed (remove of `k`, or a clear) strictly inside (lo, hi).
+pub fn removed_between(events: &[(u64, LaneEv)], k: &MKey, lo: u64, hi: u64) -> bool {
+    events.iter().any(|(q, e)| {
+        *q > lo
+            && *q < hi
+            && match e {
+                LaneEv::Rem(k2) => k2 == k,
+                LaneEv::Clr => true,
+                _ => false,
+            }
+    })
 }
 
 fn observe(r: &vsim::Remote) -> RemoteObs {
@@ -234,8 +268,12 @@ pub fn run_case(
         let mut sim = Sim::start(&agent, params, clock, None);
         // initialisation is not part of the property (and has its own 1 s timeouts)
         sim.run_until_idle();
+        let mut quiescent_marks = vec![sim.now()];
         for op in ops {
             apply_op(&mut sim, lanes, op).await;
+            if matches!(op, Op::Settle) {
+                quiescent_marks.push(sim.now());
+            }
         }
         sim.settle();
         let n = sim.remotes.len();
@@ -254,6 +292,7 @@ pub fn run_case(
             trace: shared.trace(),
             result: sim.result.clone(),
             stopped: sim.is_done(),
+            quiescent_marks,
         }
     })
 }
@@ -306,6 +345,9 @@ struct Session {
     linked_seq: u64,
     /// a completed sync of this session was requested while the remote had linked first
     synced_after_link: bool,
+    /// completed syncs of this session that were requested without link: (last quiescent point before the request was
+    /// written, seq at which `synced` was read)
+    unlinked_syncs: Vec<(u64, u64)>,
     synced_valid: bool,
     got_clear: bool,
     replica: BTreeMap<MKey, i64>,
@@ -394,6 +436,7 @@ pub fn check_map_lane(
     events: &[(u64, LaneEv)],
     final_map: &BTreeMap<MKey, i64>,
     quiescent: bool,
+    marks: &[u64],
 ) -> LaneOutcome {
     let lane = MAP_LANES[li];
     let ix = index(events);
@@ -406,6 +449,7 @@ pub fn check_map_lane(
             .collect()
     };
     let sync_q = queued(Req::Sync);
+    let sync_w: Vec<Option<u64>> = rem.sent.iter().filter(|(l, r, _, _)| l == lane && *r == Req::Sync).map(|s| s.3).collect();
     let unlink_q = queued(Req::Unlink);
     let mut synced_count = 0usize;
     let mut prev_unlinked = 0u64;
@@ -419,6 +463,7 @@ pub fn check_map_lane(
                     sess = Some(Session {
                         linked_seq: f.seq,
                         synced_after_link: false,
+                        unlinked_syncs: vec![],
                         synced_valid: false,
                         got_clear: false,
                         replica: BTreeMap::new(),
@@ -443,6 +488,9 @@ pub fn check_map_lane(
                         s.synced_valid = true;
                         if !sync_without_link(rem, lane, j) {
                             s.synced_after_link = true;
+                        } else {
+                            let written = sync_w.get(j).copied().flatten().unwrap_or(*q);
+                            s.unlinked_syncs.push((last_mark(marks, written), f.seq));
                         }
                     }
                 }
@@ -597,7 +645,12 @@ pub fn check_map_lane(
                 })
                 .collect();
             if !diff.is_empty() {
-                let class = if s.synced_valid && !s.synced_after_link {
+                // The known defect F1 (sync without link) can only lose an entry whose event was popped while that sync
+                // was in progress, i.e. a key mutated between the last quiescent point before the request and `synced`.
+                let explained_by_unlinked_sync = diff.iter().all(|(k, _, _)| {
+                    s.unlinked_syncs.iter().any(|(q, t1)| mutated_between(events, k, *q, *t1))
+                });
+                let class = if s.synced_valid && !s.synced_after_link && explained_by_unlinked_sync {
                     "not-converged:synced-without-link"
                 } else if s.synced_valid {
                     "not-converged:linked-and-synced"
@@ -674,6 +727,7 @@ pub fn check_map_sync(
     li: usize,
     rem: &RemoteObs,
     events: &[(u64, LaneEv)],
+    marks: &[u64],
 ) -> SyncOutcome {
     let lane = MAP_LANES[li];
     let mut out = SyncOutcome::default();
@@ -759,13 +813,30 @@ pub fn check_map_sync(
                         present += 1;
                     }
                     if !states.contains(&have) {
+                        // Narrow signatures for the two known defects: both need an event of that key to be possibly still
+                        // queued in the lane, i.e. a mutation since the last quiescent point before the request was written.
+                        let q = last_mark(marks, t0);
                         let sig = match have {
+                            None if without && mutated_between(events, k, q, t1) => "snapshot:key-missing:mutated-since-quiescence",
                             None => "snapshot:key-missing",
+                            Some(_) if removed_between(events, k, q, t1) => {
+                                if states.iter().all(|s| s.is_none()) {
+                                    "snapshot:phantom-key:removed-since-quiescence"
+                                } else {
+                                    "snapshot:value-outside-window:removed-since-quiescence"
+                                }
+                            }
                             Some(_) if states.iter().all(|s| s.is_none()) => "snapshot:phantom-key",
                             Some(_) => "snapshot:value-outside-window",
                         };
+                        let sig = if sig.ends_with(":removed-since-quiescence") {
+                            // known defect F2 does not depend on how the remote linked
+                            sig.to_string()
+                        } else {
+                            format!("{}{}", sig, suffix)
+                        };
                         v.fail(
-                            format!("{}{}", sig, suffix),
+                            sig,
                             format!(
                                 "remote {} lane {}: sync request written at seq {}, synced read at seq {}: replica holds {:?} for key {:?} but during that window the lane held only {:?}; replica {:?}; lane history {:?}",
                                 ri, lane, t0, t1, have, k, states, replica, events
